@@ -69,6 +69,15 @@ CLAUSE_PROPERTY = {
     "TM_Evidence": "C12",
     "NoRaise": "C18",
     "RZ_UnfittedPredict": "C14",
+    "RZ_SaveFailed": "C08",
+    "SV_NotNested": None,
+    "SV_Bracket": None,
+    "SV_StateUntouched": "C08",
+    "LD_Current": "C08",
+    "LD_History": "C08",
+    "LD_Counters": "C08",
+    "LD_Rng": "C09",
+    "LD_Known": None,
     "PO_EqualLen": "C12",
     "PO_Rows": "C12",
     "PO_LogwRows": "C12",
@@ -153,6 +162,9 @@ class Recorder:
         self._pred_calls = []
         self._fit_calls = 0
         self.sampler = None
+        self.saves = {}   # path -> snapshot taken at save_begin
+        self.loads = []   # loads observed outside a run
+        self._pending_load = None
 
     # ------------------------------------------------------------------ provenance
     def wrap_prior(self, pt):
@@ -336,6 +348,45 @@ class Recorder:
             histLen=int(st.get_history_length()),
             hist=self._hist_projection(st),
         )
+        if self._pending_load is not None:
+            self._emit("Load", **self._pending_load)
+            self._pending_load = None
+
+    def snapshot(self, st):
+        cur = st._current
+        return {
+            "cur": digest(*[cur.get(k) if not np.isscalar(cur.get(k)) else np.asarray(cur.get(k)) for k in sorted(cur)]).hex(),
+            "hist": [d.hex() for d in self._batch_digests(st)],
+            "counters": [repr(cur.get("iter")), repr(cur.get("calls")), repr(cur.get("beta")), repr(cur.get("logz"))],
+            "rng": digest(np.random.get_state()[1], np.asarray(np.random.get_state()[2:])).hex(),
+        }
+
+    def _on_save_begin(self, r):
+        snap = self.snapshot(r["core"].state)
+        self.saves[str(r["path"])] = snap
+        self._save_snap = snap
+        if self._ev is not None:
+            self._emit("SaveBegin", path=os.path.basename(str(r["path"])))
+
+    def _on_save_end(self, r):
+        after = self.snapshot(r["core"].state)
+        if self._ev is not None:
+            self._emit("SaveEnd", stateSame=bool(after == getattr(self, "_save_snap", None)))
+
+    def _on_load_end(self, r):
+        st = r["core"].state
+        got = self.snapshot(st)
+        want = self.saves.get(str(r["path"]))
+        ev = {"known": want is not None}
+        if want is None:
+            ev.update(curSame=True, histSame=True, countersSame=True, rngSame=True)
+        else:
+            ev.update(curSame=got["cur"] == want["cur"], histSame=got["hist"] == want["hist"],
+                      countersSame=got["counters"] == want["counters"], rngSame=got["rng"] == want["rng"])
+        ev["_dbg"] = {"got": {k: got[k] for k in ("counters",)}, "want": {k: want[k] for k in ("counters",)} if want else None,
+                      "histLen": [len(got["hist"]), len(want["hist"]) if want else None]}
+        self.loads.append(ev)
+        self._pending_load = ev
 
     def _on_iter_begin(self, r):
         self._limit = None
